@@ -32,6 +32,8 @@ def main (args : List String) : IO UInt32 := do
   | ["c20stream4"] => foldLines i o none drvC20stream4; return 0
   | ["bistgen"] => foldLines i o none drvBistGen; return 0
   | ["bistchk"] => foldLines i o none drvBistChk; return 0
+  | ["bistpgen"] => foldLines i o none drvBistPGen; return 0
+  | ["bistpchk"] => foldLines i o none drvBistPChk; return 0
   | ["bistspec"] => foldLines i o none drvBistSpec; return 0
   | ["addown"] => foldLines i o none drvAdDown; return 0
   | ["adup"] => foldLines i o none drvAdUp; return 0
